@@ -275,10 +275,18 @@ class PrimMixin:
         return self._path_exists(args[0])
 
     def p_os_path_expanduser(self, args, kw, st, fr, node):
-        self.use("paths: no '~' or '$VAR' in the file name (expanduser / expandvars are the identity)")
-        return args[0]
+        self.use("paths: os.path.expanduser / expandvars are uninterpreted functions of the path string (environment stable during the call)")
+        return ufunc("fs!expanduser", z3.StringSort(), z3.StringSort())(to_z3(args[0]))
 
-    p_os_path_expandvars = p_os_path_expanduser
+    def p_os_path_expandvars(self, args, kw, st, fr, node):
+        self.use("paths: os.path.expanduser / expandvars are uninterpreted functions of the path string (environment stable during the call)")
+        return ufunc("fs!expandvars", z3.StringSort(), z3.StringSort())(to_z3(args[0]))
+
+    def p_builtin_path_expanded(self, args, kw, st, fr, node):
+        """spec word: the path a name stands for once '~' and '$VAR' are expanded (expandvars(expanduser(name)))"""
+        eu = ufunc("fs!expanduser", z3.StringSort(), z3.StringSort())
+        ev = ufunc("fs!expandvars", z3.StringSort(), z3.StringSort())
+        return ev(eu(to_z3(args[0])))
 
     def p_pprint_pformat(self, args, kw, st, fr, node):
         return Opaque("formatted-string")      # the text of a rendered object: opaque (the bytes are decided bounded)
